@@ -235,3 +235,75 @@ theorem subUnixNl_replCrlfGuarded (p : Bool) (c : Bytes) (h : allCrLf p c = true
     exact ih htail
 
 end BreezyVerif.C45
+
+namespace BreezyVerif.C45
+
+/-- the output of the CRLF substitution is canonical for it -/
+theorem allCrLf_subUnixNl (p : Bool) (d : Bytes) : allCrLf p (subUnixNl p d) = true := by
+  induction d generalizing p with
+  | nil => rfl
+  | cons b rest ih =>
+    simp only [subUnixNl]
+    split
+    · rename_i h
+      obtain ⟨rfl, rfl⟩ := h
+      have := ih false
+      simp [allCrLf, this]
+    · rename_i h
+      simp only [allCrLf, ih, Bool.and_true, Bool.or_eq_true, bne_iff_ne]
+      by_cases hb : b = LF
+      · right; cases p <;> simp_all
+      · left; exact hb
+
+end BreezyVerif.C45
+
+namespace BreezyVerif.C45
+
+theorem noCrCrLf_tail_after_crlf (p : Bool) (rest : Bytes)
+    (h : noCrCrLf p (CR :: LF :: rest) = true) : p = false ∧ noCrCrLf false rest = true := by
+  cases rest with
+  | nil => cases p <;> simp_all [noCrCrLf]
+  | cons x r => cases p <;> simp_all [noCrCrLf]
+
+/-- canonical CRLF text without `\r\r\n` is written by the LF writer without any `\r\n` -/
+theorem noCrLf_replCrlf (p : Bool) (c : Bytes) (h1 : allCrLf p c = true) (h2 : noCrCrLf p c = true)
+    (h3 : ¬ (p = true ∧ c.head? = some LF)) : noCrLf p (replCrlf c) = true := by
+  fun_induction replCrlf c generalizing p with
+  | case1 => rfl
+  | case2 a =>
+    simp only [noCrLf, Bool.and_true, Bool.not_eq_true', Bool.and_eq_false_iff,
+      decide_eq_false_iff_not]
+    by_cases hp : p = true
+    · right; intro e; exact h3 ⟨hp, by simp [e]⟩
+    · left; simpa using hp
+  | case3 a b rest hab ih =>
+    obtain ⟨rfl, rfl⟩ := hab
+    obtain ⟨hp, hr⟩ := noCrCrLf_tail_after_crlf p rest h2
+    subst hp
+    have hrest : allCrLf false rest = true := by
+      simp only [allCrLf, Bool.and_eq_true] at h1
+      have := h1.2.2
+      simpa using this
+    have := ih false hrest hr (by simp)
+    simp [noCrLf, this]
+  | case4 a b rest hab ih =>
+    simp only [allCrLf, Bool.and_eq_true, Bool.or_eq_true, bne_iff_ne] at h1
+    obtain ⟨h11, h12, h13⟩ := h1
+    have htail : allCrLf (a = CR) (b :: rest) = true := by
+      simp only [allCrLf, Bool.and_eq_true, Bool.or_eq_true, bne_iff_ne]
+      exact ⟨h12, h13⟩
+    have h2' : noCrCrLf (a = CR) (b :: rest) = true := by
+      simp only [noCrCrLf, Bool.and_eq_true] at h2
+      exact h2.2
+    have := ih _ htail h2' (by
+      intro ⟨e1, e2⟩
+      apply hab
+      simp only [List.head?_cons, Option.some.injEq] at e2
+      exact ⟨by simpa using e1, e2⟩)
+    simp only [noCrLf, this, Bool.and_true, Bool.not_eq_true', Bool.and_eq_false_iff,
+      decide_eq_false_iff_not]
+    by_cases hp : p = true
+    · right; intro e; exact h3 ⟨hp, by simp [e]⟩
+    · left; simpa using hp
+
+end BreezyVerif.C45
